@@ -27,6 +27,9 @@ func genC03Plan(r *sim.Rng, tier string) AdmPlan {
 	if r.Bool(0.5) {
 		pl.Sched.Chaos = 0.05 + 0.4*r.Float()
 	}
+	if r.Bool(0.15) {
+		pl.Sched.YieldNotify = []float64{0.3, 0.7}[r.Intn(2)]
+	}
 	pl.Streams = 1
 	if r.Bool(0.3) {
 		pl.Streams = 2
@@ -220,6 +223,14 @@ func CheckC03(k *sim.Kernel, ar *AdmRun) {
 		if pairs[id].stop < 0 {
 			k.Violate("C03.notify-no-stop", "session %s reported start but no stop although every session has ended", id)
 		}
+	}
+	if k.P.YieldNotify > 0 {
+		// runs with a slow notify handler: events reach the handler late (queued behind the one it is busy with), so only
+		// what the handler itself can see is judged - exactly one start and one stop per session, in that order; the
+		// rules below relate notification instants to what the peers observed and run in the other plans
+		k.Probe("c03_slow_notify_handler_runs")
+		k.Probe("nontrivial")
+		return
 	}
 	// ---- observed outcome of every network publisher agrees with the notifications
 	startByRemote := map[string]NotifyEvent{}
